@@ -108,6 +108,17 @@ func AbstractFile(blob []byte) *AFile {
 // ---------------------------------------------------------------- selection
 
 func (f *AFile) hit(sel string) bool {
+	if _, ok := SelPattern(sel); ok { // a regular expression: full match of the GUID text or of a UI name (selre.go)
+		if selHits(sel, GUIDText(f.GUID[:])) {
+			return true
+		}
+		for _, n := range f.Names {
+			if selHits(sel, n) {
+				return true
+			}
+		}
+		return false
+	}
 	if strings.EqualFold(sel, GUIDText(f.GUID[:])) {
 		return true
 	}
@@ -149,7 +160,7 @@ func (img *AImage) matches(sel string, volumes bool, byType int) []target {
 	var out []target
 	img.walk(func(v *AVol, path []*AVol) {
 		p := append([]*AVol{}, path...)
-		if volumes && byType < 0 && strings.EqualFold(sel, GUIDText(v.Name[:])) {
+		if volumes && byType < 0 && selHits(sel, GUIDText(v.Name[:])) { // literal: EqualFold; pattern: full match (selre.go)
 			out = append(out, target{vol: v, idx: -1, path: p})
 		}
 		for i, f := range v.Files {
@@ -187,6 +198,9 @@ func canonSection(typ uint8, body []byte) []byte {
 //	       result (a tool error for another reason — no room, a refused blob — is not judged here);
 //	"?"    the abstract model has no opinion (operations it does not describe).
 func (img *AImage) Apply(o Op) string {
+	if selAbstains(o.Sel) {
+		return "?" // a pattern the abstract model does not judge (selre.go)
+	}
 	switch o.Kind {
 	case "if", "ip", "dxe":
 		byType := -1
@@ -281,6 +295,8 @@ func (img *AImage) Apply(o Op) string {
 		ms[0].vol.Files[ms[0].idx] = &nfile
 		markChanged(ms[0])
 		return "ok"
+	case "rde":
+		return img.applyRde(o) // remove_dxes_except (selrde.go)
 	case "dump":
 		if len(img.matches(o.Sel, false, -1)) != 1 {
 			return "err"
